@@ -265,7 +265,7 @@ pub fn call(info: &EpInfo, text: &[u8]) -> Option<Result<(), sonic_rs::Error>> {
 /// is this error an implementation nesting-limit rejection
 pub fn is_depth_limit(e: &sonic_rs::Error) -> bool {
     let s = e.to_string();
-    s.contains("recursion limit") || s.contains("Recursion limit") || s.contains("depth")
+    s.contains("recursion limit") || s.contains("Recursion limit") || s.contains("layers deep")
 }
 
 /// Error self-location invariants (C20): returns a violation class + detail if broken.
